@@ -6,7 +6,14 @@ PROP = Property(
     "C05", ["HsVerif.Props.C05"], [ClusterLiveFam()],
     facts=[
         {"func": "protocol/synchronizer/synchronizer.go:Synchronizer.advanceView", "order": ["VerifySyncInfo", "UpdateHighTC", "UpdateHighQC", "View", "NextView", "AddEvent", "GetLeader"]},
-        {"func": "protocol/synchronizer/synchronizer.go:Synchronizer.OnLocalTimeout", "order": ["View", "LocalTimeoutRule", "SyncInfo", "StopVoting", "Timeout", "OnRemoteTimeout"]},
+        # timers are outside the model: their placement is pinned syntactically. The timer is re-armed FIRST in
+        # OnLocalTimeout (so every path, including the re-send of a stored timeout, times out again) ...
+        {"func": "protocol/synchronizer/synchronizer.go:Synchronizer.OnLocalTimeout", "order": ["startTimeoutTimer", "View", "Timeout", "ViewTimeout", "LocalTimeoutRule", "SyncInfo", "StopVoting", "Timeout", "OnRemoteTimeout"]},
+        # ... stopped and re-armed around the view change ...
+        {"func": "protocol/synchronizer/synchronizer.go:Synchronizer.advanceView", "order": ["stopTimeoutTimer", "NextView", "ViewStarted", "startTimeoutTimer", "AddEvent"]},
+        # ... armed for the current view's duration and delivering a TimeoutEvent for that view
+        {"func": "protocol/synchronizer/synchronizer.go:Synchronizer.startTimeoutTimer", "order": ["View", "Duration", "AfterFunc", "AddEvent"]},
+        {"func": "protocol/synchronizer/synchronizer.go:Synchronizer.Start", "order": ["startTimeoutTimer", "GetLeader", "CreateProposal", "Propose"]},
         {"func": "protocol/viewstates.go:ViewStates.SyncInfo", "contains": ["SetQC", "SetTC"]},
     ],
     trusted=REPLICA_TRUST + [
